@@ -129,13 +129,24 @@ pub async fn run_case(c: Case) -> Result<CaseInfo, Failure> {
         if w.ended() {
             break;
         }
-        if c.role.is_server() && matches!(op, Op::Send { kind: SendKind::Subscribe | SendKind::Unsubscribe, .. } | Op::SendBad { kind: SendKind::Subscribe | SendKind::Unsubscribe }) {
+        if c.role.is_server() && matches!(op, Op::Send { kind: SendKind::Subscribe | SendKind::Unsubscribe, .. } | Op::SendBad { kind: SendKind::Subscribe | SendKind::Unsubscribe, .. }) {
             continue;
+        }
+        // streamed sends appear only as locally failing starts (over-long topic, packet id in use)
+        if let Op::StreamStart { qos, bad, .. } = op {
+            // (with a full window the start would park and run later, when the id may be free again)
+            let id_in_use = *bad == 2 && qos % 2 == 1 && w.unanswered.iter().any(|qi| w.requests[*qi].t != 6) && w.eut.credit().is_some_and(|c| c > 0);
+            if *bad != 1 && !id_in_use {
+                continue;
+            }
         }
         let acks_before = w.acks.len();
         trace.push(match op {
             Op::Send { kind, own_id, .. } => 10 + *kind as u8 + if *own_id != 0 { 50 } else { 0 },
             Op::SendBad { .. } => 2,
+            Op::StreamStart { qos, bad, .. } => 130 + qos % 2 + 2 * bad,
+            Op::Chunk { .. } => 140,
+            Op::StreamDrop(_) => 141,
             Op::Poll(_) => 3,
             Op::Ack { batch, .. } => 5 + u8::from(*batch),
             Op::AckDev(d) => match d {
@@ -152,7 +163,7 @@ pub async fn run_case(c: Case) -> Result<CaseInfo, Failure> {
             two_outstanding_at_ack = true;
         }
         w.poll_all();
-        if w.slots.iter().any(|s| matches!(&s.result, Some(SendRes::Err(SendErr::Encode(_) | SendErr::PacketIdInUse(_))))) {
+        if w.slots.iter().any(|s| matches!(&s.result, Some(SendRes::Err(SendErr::Encode(_) | SendErr::PacketIdInUse(_))))) || w.streams.iter().any(|s| s.start_err.is_some()) {
             local_failure = true;
         }
         check_ok_results(&c, &w)?;
@@ -222,6 +233,13 @@ pub async fn run_case(c: Case) -> Result<CaseInfo, Failure> {
                 }
             }
         }
+        if let Some((i, s)) = w.slots.iter().enumerate().find(|(_, s)| s.chunk_of.is_none() && matches!(&s.result, Some(SendRes::Err(SendErr::Encode(e))) if e.contains("ExpectPayload"))) {
+            return Err(Failure::new(
+                "send-refused-after-local-failure",
+                format!("C06/{}/send-refused-after-local-failure", c.role.name()),
+                format!("send #{i} ({:?}) was refused with ExpectPayload although no streamed publish was ever started successfully (streams: {:?}); futures {:?}", s.kind, w.streams.iter().map(|s| (s.qos, s.start_err.clone())).collect::<Vec<_>>(), w.results_summary()),
+            ));
+        }
         if w.eut.credit() != Some(w.limit) {
             return Err(Failure::new(
                 "credit-not-restored",
@@ -251,7 +269,9 @@ fn op_strategy() -> BoxedStrategy<Op> {
     let kind2 = prop_oneof![2 => Just(SendKind::Qos1), 1 => Just(SendKind::Qos0), 1 => Just(SendKind::Subscribe)];
     prop_oneof![
         8 => (kind, prop_oneof![5 => Just(0u8), 2 => 1u8..4]).prop_map(|(kind, own_id)| Op::Send { kind, again: false, own_id }),
-        1 => kind2.prop_map(|kind| Op::SendBad { kind }),
+        1 => (0u8..2, 1u8..3).prop_map(|(qos, bad)| Op::StreamStart { qos, declared: 3, bad }),
+        1 => prop_oneof![Just(Op::StreamDrop(0)), Just(Op::Chunk { stream: 0, len: 1 })],
+        1 => (kind2, 0u8..3).prop_map(|(kind, how)| Op::SendBad { kind, how }),
         4 => (1u8..4, any::<bool>()).prop_map(|(n, batch)| Op::Ack { n, batch }),
         2 => prop_oneof![
             3 => prop::sample::select(vec![4u8, 5, 7, 9, 11]).prop_map(Dev::WrongType),
@@ -329,6 +349,18 @@ fn deviation_matrix() -> Vec<Case> {
                     ops: vec![Op::Send { kind, again: false, own_id: 0 }, Op::Send { kind: SendKind::Qos1, again: false, own_id: 0 }, Op::Ack { n: 1, batch: false }, Op::AckDev(dev)],
                 });
                 out.push(Case { role, limit: 5, ops: vec![Op::Send { kind, again: false, own_id: 0 }, Op::Send { kind: SendKind::Qos1, again: false, own_id: 0 }, Op::AckDev(dev)] });
+            }
+        }
+        // a streamed publish that fails to start, then the handle is used / dropped, then ordinary traffic
+        for qos in 0..2u8 {
+            for bad in 1..3u8 {
+                for tail in [vec![], vec![Op::StreamDrop(0)], vec![Op::Chunk { stream: 0, len: 1 }, Op::StreamDrop(0)]] {
+                    let q1 = Op::Send { kind: SendKind::Qos1, again: false, own_id: 0 };
+                    let mut ops = vec![q1, Op::StreamStart { qos, declared: 3, bad }];
+                    ops.extend(tail);
+                    ops.extend([q1, Op::Send { kind: SendKind::Qos2, again: false, own_id: 0 }, Op::Ack { n: 3, batch: false }]);
+                    out.push(Case { role, limit: 5, ops });
+                }
             }
         }
         // unsolicited acknowledgements with nothing outstanding
